@@ -1,6 +1,6 @@
 """C02 / C13: cases (CIFs parsed from CifDoc documents, CIFs built through the API around descriptor strings) are written
 by cif_write, re-parsed, and the recorded facts validated by TLC against CifRoundTrip.tla."""
-import json, os, collections, random
+import zlib, json, os, collections, random
 from vlib import *
 from check_doc import (PALETTE, ALLPRES, ALLSEPS, CTX2, run_doc_tlc, render, observed_content)
 from check_quote import py_adm
@@ -82,7 +82,14 @@ def run_cases(binary, cases, ver, chunk=150):
             reparse = {"cif": "r", "errors": "accept", "opts": {"max_frame_depth": -1}}
             if ver == 1:
                 reparse["opts"] = {"prefer_cif2": -1, "fold": 1, "prefix": 1, "max_frame_depth": -1}
-            cs = list(build) + [{"op": "project", "cif": "c"}, {"op": "write", "cif": "c", "version": ver, "bytes": 0, "reparse": reparse},
+            # CIF 2.0 is what cif_write produces by default: it is requested in one of three ways, chosen by the case's label -
+            # cif_version 2, the default options object (cif_version 0), no options object at all
+            wr = {"op": "write", "cif": "c", "version": ver, "bytes": 0, "reparse": reparse}
+            if ver == 2:
+                form = zlib.crc32(str(label).encode()) % 3
+                if form == 1: wr["version"] = 0
+                elif form == 2: wr["noopts"] = 1
+            cs = list(build) + [{"op": "project", "cif": "c"}, wr,
                                 {"op": "project", "cif": "r"}, {"op": "reset"}]
             spans.append((len(cmds), len(cmds) + len(cs), len(build)))
             cmds += cs
